@@ -143,18 +143,26 @@ func BaseStart(p Party, task string, prepare ...func(Round) *Error) *Error {
 	return p.round().Start()
 }
 
+// BaseWrapError wraps an error raised outside of the party's locked sections (e.g. while parsing wire bytes).
+// It takes the party lock because WrapError reads the current round, which Start and Update change concurrently.
+func BaseWrapError(p Party, err error, culprits ...*PartyID) *Error {
+	p.lock()
+	defer p.unlock()
+	return p.WrapError(err, culprits...)
+}
+
 // an implementation of Update that is shared across the different types of parties (keygen, signing, dynamic groups)
 func BaseUpdate(p Party, msg ParsedMessage, task string) (ok bool, err *Error) {
-	// fast-fail on an invalid message; do not lock the mutex yet
-	if _, err := p.ValidateMessage(msg); err != nil {
-		return false, err
-	}
 	// lock the mutex. need this mtx unlock hook; L108 is recursive so cannot use defer
 	r := func(ok bool, err *Error) (bool, *Error) {
 		p.unlock()
 		return ok, err
 	}
 	p.lock() // data is written to P state below
+	// fast-fail on an invalid message; the lock is held because wrapping the error reads the current round
+	if _, err := p.ValidateMessage(msg); err != nil {
+		return r(false, err)
+	}
 	common.Logger.Debugf("party %s received message: %s", p.PartyID(), msg.String())
 	if p.round() != nil {
 		common.Logger.Debugf("party %s round %d update: %s", p.PartyID(), p.round().RoundNumber(), msg.String())
